@@ -550,3 +550,71 @@ def check_L30(ctx, rep):
                      % (src[1], sorted(registry)), loc=cr.loc(src[2]))
     if n_direct < 3:
         raise Broken('L30: only %d scans of the union-find total recognised (3 confirmed by reading)' % n_direct)
+
+
+# ------------------------------------------------------------------ L32
+
+def check_L32(ctx, rep):
+    """class ids do not survive a collapse: in the union-find backed merge, every class id that is taken from the structure and
+    kept (add_node / add_node_new / elem_set / get_dominant_id ..) is taken after the last call that can make one class dominated by
+    another (`TrRelUnionFind::add` -> merge_multiple, when the added pair closes a cycle). An id recorded before such a call may name
+    a dead class afterwards: the delta built from it is empty for that class. Collapsing methods = the `&mut self` methods of
+    TrRelUnionFind from which `merge_multiple` is reachable (confirmed by reading: the only place where `set_subsumptions` gets a new
+    subsumption as opposed to a path compression)."""
+    cr = ctx.lib('ascent_byods_rels')
+    mm = [p for p in cr.bodies if p.startswith('trrel_union_find::TrRelUnionFind::<T>::') and cr.bodies[p]['name'] == 'merge_multiple']
+    if not mm:
+        raise Broken('L32: TrRelUnionFind::merge_multiple not found (anchor of the collapsing methods)')
+    # call graph inside the type
+    calls = {}
+    for p, b in cr.bodies.items():
+        if not p.startswith('trrel_union_find::TrRelUnionFind::<T>::'):
+            continue
+        calls[p] = {callee(x).get('d') for x, _ in walk(b['tree']) if x.get('k') in ('call', 'mcall') and callee(x) and callee(x).get('d')}
+    collapsing = set(mm)
+    grew = True
+    while grew:
+        grew = False
+        for p, cs in calls.items():
+            if p not in collapsing and cs & collapsing:
+                collapsing.add(p); grew = True
+    coll_names = {cr.bodies[p]['name'] for p in collapsing}
+    rep.inst('L32', 'collapsing methods of TrRelUnionFind: %s' % sorted(coll_names))
+    n = 0
+    for path, b in sorted(cr.bodies.items()):
+        if 'trrel_union_find_binary_ind' not in path:
+            continue
+        order = {id(x): i for i, (x, _) in enumerate(walk(b['tree']))}
+        coll, ids = {}, {}
+        for x, parents in walk(b['tree']):
+            if x.get('k') != 'mcall':
+                continue
+            d = (x.get('c') or {}).get('d') or ''
+            if not d.startswith('trrel_union_find::TrRelUnionFind::<T>::'):
+                continue
+            root = chain_root(x['r'])
+            if root is None:
+                continue
+            if d in collapsing:
+                coll.setdefault(root['id'], []).append((order[id(x)], x, root.get('n')))
+            elif x['m'] in _ID_SOURCES:
+                # kept = bound by a let / stored, i.e. not just compared on the spot
+                if any(p_.get('k') == 'let' for p_ in parents[-4:]) or any(p_.get('k') == 'mcall' and p_['m'] in ('insert', 'push', 'entry') for p_ in parents[-4:]):
+                    ids.setdefault(root['id'], []).append((order[id(x)], x, root.get('n')))
+        for rid in coll:
+            if rid not in ids:
+                continue
+            n += 1
+            last_c = max(coll[rid], key=lambda t: t[0])
+            first_i = min(ids[rid], key=lambda t: t[0])
+            ok = last_c[0] < first_i[0]
+            rep.inst('L32', '%s: on `%s` the last collapsing call (%s) precedes the first class id that is kept (%s): %s' % (
+                path, last_c[2], last_c[1]['m'], first_i[1]['m'], ok))
+            rep.functions.add(path)
+            if not ok:
+                rep.viol('L32', path, 'stale-class-id:' + first_i[1]['m'],
+                         'a class id is taken from `%s` with %s and kept, and `%s` - which can collapse classes - is called on it afterwards: '
+                         'an id recorded before the collapse may name a dead class, the delta built from it is empty for that class'
+                         % (first_i[2], first_i[1]['m'], last_c[1]['m']), loc=cr.loc(last_c[1]))
+    if n < 1:
+        raise Broken('L32: no function with both a collapsing call and kept class ids found in trrel_union_find_binary_ind (1 confirmed by reading)')
